@@ -972,6 +972,23 @@ class Interp:
                     del rf.ub[terms]
                 else:
                     rf.ub[terms] = max(rf.ub[terms], pf.ub[pt])
+        # astronomically large bounds (left over when a relation tightened an interval that had been
+        # widened to the type's range) carry no information and must not keep a fixpoint from closing
+        BIG = 1 << 62
+        for a, (lo, hi) in list(rf.iv.items()):
+            pa = a[:-1] if a.endswith("'") else a
+            tr = self.atom_range.get(pa, (-INF, INF))
+            nlo = tr[0] if (lo <= -BIG and lo != -INF) else lo
+            nhi = tr[1] if (hi >= BIG and hi != INF) else hi
+            if nlo > lo:
+                nlo = lo
+            if nhi < hi:
+                nhi = hi
+            if (nlo, nhi) != (lo, hi):
+                if (nlo, nhi) == (-INF, INF):
+                    del rf.iv[a]
+                else:
+                    rf.iv[a] = (nlo, nhi)
         # primed -> final names
         ren = {name + "'": name for name in diff.values()}
         if ren:
